@@ -11,7 +11,7 @@ RULE = ('a well-behaved workload (2-4 connections that authenticate and only mak
         'under a watchdog; non-trivial = at least one PUBLISH delivered; compared with the Coq model on aspects %s; oracles: '
         'judge.py (frame-normalised) and "a well-behaved, unfaulted connection is never disconnected and none of its '
         'callbacks raises"')
-PLAN = [(110, 3000, dict(profile='mixed', faults=0.06), False),
+PLAN = [(50, 1200, dict(profile='benign', chunking='bursts', reauth=0.06, nops=10), True), (30, 500, dict(scenario='reauth_leave'), True), (110, 3000, dict(profile='mixed', faults=0.06), False),
         (70, 1500, dict(profile='hostile', nconn=4), False),
         (100, 2500, dict(profile='mixed', chunking='frames', faults=0.05), True),
         (30, 600, dict(profile='mixed', async_=True), False)]
